@@ -306,6 +306,7 @@ def _fault_case(rig, entry, pre, fault):
 
 
 # ---------------------------------------------------------------------- single-bit flips
+FLIP_ALARM_S = 5
 FLIP_ALL_BITS_BELOW = 64  # quick tier: every bit of payload bytes < 64, then bit (i mod 8) of byte i
 
 
@@ -339,7 +340,7 @@ def _flip_child(rig, entry, bit):
             lim = vm + (768 << 20)  # a flipped size field must end in MemoryError, not in gigabytes of RSS
             resource.setrlimit(resource.RLIMIT_AS, (lim, lim))
             signal.signal(signal.SIGALRM, signal.SIG_DFL)
-            signal.alarm(30)
+            signal.alarm(FLIP_ALARM_S)
             cc = rig.cc
 
             def wrap(name):
